@@ -12,7 +12,7 @@ from sim.kernel import H
 from workload import scenario, tasks
 from workload.scenario import CONT_FAMILIES, FAMILIES
 
-from . import engine_g, engine_p, minimize, oracles_g
+from . import engine_g, engine_p, gprops, minimize, oracles_g
 from .engine_p import Session, first_difference
 from .oracles_g import _deep_equal
 
@@ -30,14 +30,24 @@ def _optimizers(pid):
     return names
 
 
+gprops.G_PROPS["C09"] = dict(oracles=["c09_obs"], families=FAMILIES, modes=["serial", "thread", "process"],
+                             n_quick=3000, n_thorough=30000, opts={})
+
+
 def plan(pid, tier, seed, n_override=None):
     n = n_override or N_RUNS[pid][0 if tier == "quick" else 1]
     names = _optimizers(pid)
     r = random.Random(H(seed, pid, tier, "cells"))
     order = list(names)
     r.shuffle(order)
-    return [{"i": i, "seed": H(seed, pid, tier, i), "pid": pid, "tier": tier, "optimizer": order[i % len(order)]}
+    jobs = [{"i": i, "seed": H(seed, pid, tier, i), "pid": pid, "tier": tier, "optimizer": order[i % len(order)]}
             for i in range(n)]
+    if pid == "C09":
+        # observational part: plain engine-G runs (all families, modes, histories) with before/after dumps
+        ng = max(50, n * 2) if n_override else None
+        for j in gprops.plan("C09", tier, seed, n_override=ng):
+            jobs.append(dict(j, i=n + j["i"], kind="observational", optimizer=j["cell"][0]))
+    return jobs
 
 
 # ----------------------------------------------------------------------------- descriptors
@@ -77,6 +87,17 @@ def make_desc(job):
                 hist.append({"task": scenario.gen_task(r, r.choice(["cont_multi", "cont_mixed", "cont_single"]))})
         d["ops"] = hist
         d["abort_first_at"] = r.randrange(1, 40) if r.random() < 0.15 else None
+        if r.random() < 0.35:
+            d0, _ = scenario.gen_config(r, opt, engine_g.make_config, cycles=(2, cyc[1]), perturb_p=1.0, stop_opts=False)
+            if r.random() < 0.6:
+                d0["max_cycles"] = d["config"]["max_cycles"]
+            if r.random() < 0.6:
+                d0["population_size"] = d["config"]["population_size"]
+            try:
+                engine_g.make_config(opt, d0)
+                d["history_config"] = d0
+            except Exception:
+                pass
     elif pid == "C09":
         fam = r.choice(FAMILIES)
         mode = r.choice(["serial", "serial", "thread", "process"])
@@ -92,6 +113,13 @@ def make_desc(job):
         d["config"], d["perturbed"] = scenario.gen_config(r, opt, engine_g.make_config, cycles=cyc, perturb_p=0.5,
                                                           stop_opts=False)
         d["faults"] = scenario.gen_faults(r, "serial", 0, p_none=0.6, kinds=scenario.STREAM_FAULTS)
+        ob = d["task"]["objective"]
+        if "multi" not in ob and r.random() < 0.15:
+            lows, highs, _ = scenario.var_ranges(d["task"]["vars"])
+            if lows:
+                ax = r.randrange(len(lows))
+                ob["penalty"] = {"axis": ax, "thr": lows[ax] + r.uniform(0.2, 0.8) * (highs[ax] - lows[ax]),
+                                 "side": r.choice(["above", "below"]), "value": "-inf"}   # worst value of a max task
     elif pid == "C18":
         fam = r.choice(["cont_multi", "cont_multi", "cont_mixed", "discrete"])
         d["task"] = scenario.gen_task(r, fam)
@@ -127,6 +155,8 @@ def make_desc(job):
         # instance for every grid point): an earlier configuration d0 and a run with it
         if r.random() < 0.5:
             d0, _ = scenario.gen_config(r, opt, engine_g.make_config, cycles=(1, 4), perturb_p=1.0)
+            if r.random() < 0.6:
+                d0["max_cycles"] = d["config"]["max_cycles"]
             if r.random() < 0.6:
                 d0["population_size"] = d["config"]["population_size"]
                 try:
@@ -261,7 +291,7 @@ def run_c08(desc, stats):
     if desc.get("abort_first_at"):
         faults = [{"kind": "objective_raise", "at": desc["abort_first_at"]}]
     with Session(desc["seed"], faults=faults) as s:
-        x = _cls(desc)(_cfg(desc))
+        x = _cls(desc)(_cfg(desc, desc.get("history_config")))
         task_obs = tasks.build_task(desc["task"])
         aborted = False
         completed = 0
@@ -273,6 +303,9 @@ def run_c08(desc, stats):
                 aborted = True
             elif h.exc is None:
                 completed += 1
+        if desc.get("history_config"):
+            # the used instance is re-configured to the observed configuration (what HyperTuner does per grid point)
+            x.set_config_parameters(copy.deepcopy(desc["config"]))
         s.set_ambient("obs")
         r1 = s.call(x, task_obs, entropy_label="obs")
         y = _cls(desc)(_cfg(desc))
@@ -607,6 +640,11 @@ def execute(pid, desc):
 
 def run_job(job):
     t0 = time.time()
+    if job.get("kind") == "observational":
+        r = gprops.run_job(job)
+        r.update({"uninformative": False, "stats": {}, "result_digest": None, "has_labels": False,
+                  "opkey": json.dumps([r["cell"], r["digest"]])})
+        return r
     desc = make_desc(job)
     vs, stats = execute(job["pid"], desc)
     return {
@@ -645,6 +683,9 @@ def _opkey(pid, desc):
 def replay(pid, desc):
     if pid == "C07" and desc.get("cross_process"):
         return cross_process_replay(desc)
+    if "kind" not in desc:          # engine-G descriptor (observational part of C09)
+        rec = engine_g.run_scenario(desc)
+        return gprops.apply_oracles(pid, desc, rec, desc.get("seed", 0))
     vs, _ = execute(pid, desc)
     return vs
 
@@ -704,7 +745,7 @@ def evidence(pid, tier, seed, jobs, results, good, wall):
                 bp = extra.setdefault("by_products", {})
                 for kk, vv in v.items():
                     bp[kk] = bp.get(kk, 0) + vv
-    samples = [{"job": j["i"], "seed": j["seed"], "case": make_desc(j)} for j, r in good[:2]]
+    samples = [{"job": j["i"], "seed": j["seed"], "case": make_desc(j)} for j, r in good[:2] if j.get("kind") != "observational"]
     cov = {
         "evaluations": len(good), "distinct_nontrivial": len(distinct), "rule": RULE[pid], "samples": samples,
         "seeds": {"verif_seed": seed, "derivation": "seed_i = H(VERIF_SEED, property, tier, i)",
